@@ -15,6 +15,7 @@ crossing of `unlocked_refuted` must show (non-vacuity of the probe).
 CPython's scheduler, threading.RLock and SQLite's locking are TRUSTED (runtime remainder).
 """
 import ast
+import logging
 import sys
 import threading
 import time
@@ -828,6 +829,248 @@ def session_layer_probe(ctx):
                           writes[0][1], writes[:3]))
 
 
+# ---------------------------------------------------------------------------------- the path the SERVER uses
+class PipeConn:
+    """An accepted connection as KmipServer hands it to _setup_connection_handler: blocking recv fed from a queue,
+    responses collected; close() of the feeding side ends the session (recv returns b'')."""
+
+    def __init__(self, cert_der):
+        import queue
+        self.inq = queue.Queue()
+        self.outq = queue.Queue()
+        self.buf = b''
+        self.cert = cert_der
+        self.closed = False
+
+    def do_handshake(self):
+        return None
+
+    def recv(self, n):
+        if not self.buf:
+            self.buf = self.inq.get()
+            if self.buf == b'':
+                return b''
+        out, self.buf = self.buf[:n], self.buf[n:]
+        return out
+
+    def sendall(self, data):
+        self.outq.put(bytes(data))
+
+    def getpeercert(self, binary_form=False):
+        return self.cert
+
+    def cipher(self):
+        return ('ECDHE-RSA-AES256-GCM-SHA384', 'TLSv1.2', 256)
+
+    def shared_ciphers(self):
+        return [self.cipher()]
+
+    def shutdown(self, how):
+        return None
+
+    def close(self):
+        self.closed = True
+
+
+class ServerRig:
+    """A real KmipServer built from a configuration file; its engine is built exactly as KmipServer.start() builds it
+    (start() itself also opens the TLS socket and the policy monitor process, which a check cannot do); client
+    connections go through KmipServer._setup_connection_handler and are spoken to in TTLV."""
+
+    def __init__(self, ctx, name):
+        import os
+        import sessdrv
+        from kmip.services.server import server as server_mod
+        self.sessdrv = sessdrv
+        d = ctx.work / name
+        d.mkdir(parents=True, exist_ok=True)
+        for fn in ('server.crt', 'server.key', 'ca.crt'):
+            open(d / fn, 'w').close()
+        (d / 'policies').mkdir(exist_ok=True)
+        conf = ('[server]\nhostname=127.0.0.1\nport=5696\ncertificate_path={d}/server.crt\nkey_path={d}/server.key\n'
+                'ca_path={d}/ca.crt\nauth_suite=TLS1.2\npolicy_path={d}/policies\ndatabase_path={d}/server.db\n'
+                'logging_level=CRITICAL\n').format(d=d)
+        (d / 'server.conf').write_text(conf)
+        self.logger = logging.getLogger('kmip.server')
+        self.before = list(self.logger.handlers)
+        self.saved_level = self.logger.level
+        engine_mod.time = kdrv.FakeClock()
+        self.srv = server_mod.KmipServer(config_path=str(d / 'server.conf'), log_path=str(d / 'log' / 'server.log'))
+        # KmipServer.start(): self.policies = <policy store>; self._engine = engine.KmipEngine(policies=self.policies,
+        # database_path=self.config.settings.get('database_path'))
+        self.srv.policies = open_policies()
+        self.srv._engine = engine_mod.KmipEngine(policies=self.srv.policies,
+                                                 database_path=self.srv.config.settings.get('database_path'))
+        self.db = str(d / 'server.db')
+        self.clients = {}
+
+    def connect(self, user):
+        conn = PipeConn(self.sessdrv.make_cert((user,), 'client'))
+        name = '{0:08}'.format(self.srv._session_id)
+        self.srv._setup_connection_handler(conn, ('192.0.2.%d' % (10 + len(self.clients)), 5696))
+        sess = [t for t in threading.enumerate() if t.name == name and hasattr(t, '_engine')]
+        self.clients[user] = (conn, sess[0] if sess else None)
+        return conn, (sess[0] if sess else None)
+
+    def send(self, user, items, version=(1, 2)):
+        builder = kdrv.Engine.build
+        req = builder(None, items, version=version)
+        self.clients[user][0].inq.put(self.sessdrv.encode_request(req, version))
+
+    def receive(self, user, version=(1, 2), timeout=20):
+        import queue
+        from kmip.core import utils as kutils
+        from kmip.core.messages import messages as kmsg
+        try:
+            data = self.clients[user][0].outq.get(timeout=timeout)
+        except queue.Empty:
+            return None
+        resp = kmsg.ResponseMessage()
+        resp.read(kutils.BytearrayStream(data), kmip_version=kdrv.contents.protocol_version_to_kmip_version(kdrv.contents.ProtocolVersion(*version)))
+        return project_response(resp, None)
+
+    def call(self, user, items, version=(1, 2)):
+        self.send(user, items, version)
+        return self.receive(user, version)
+
+    def close(self):
+        for conn, sess in self.clients.values():
+            conn.inq.put(b'')
+        for conn, sess in self.clients.values():
+            if sess is not None:
+                sess.join(10)
+        engines = {id(s._engine): s._engine for _, s in self.clients.values() if s is not None}
+        engines[id(self.srv._engine)] = self.srv._engine
+        for e in engines.values():
+            try:
+                e._data_store.dispose()
+            except Exception:
+                pass
+        for h in [h for h in self.logger.handlers if h not in self.before]:
+            self.logger.removeHandler(h)
+            h.close()
+        self.logger.setLevel(self.saved_level)
+
+
+def logging_quiet():
+    logging.getLogger('kmip').setLevel(logging.CRITICAL + 1)
+
+
+def server_static(ctx):
+    """ast on server.py: KmipEngine is constructed once (in start) and _setup_connection_handler hands self._engine to every
+    KmipSession."""
+    problems = []
+    t = ast.parse((ctx.repo / 'kmip/services/server/server.py').read_text())
+    cls = [n for n in t.body if isinstance(n, ast.ClassDef) and n.name == 'KmipServer']
+    if not cls:
+        return ['class KmipServer not found']
+    methods = {n.name: n for n in cls[0].body if isinstance(n, ast.FunctionDef)}
+    built = [m for m, fn in methods.items() for n in ast.walk(fn)
+             if isinstance(n, ast.Call) and isinstance(n.func, ast.Attribute) and n.func.attr == 'KmipEngine']
+    if built != ['start']:
+        problems.append('KmipServer builds KmipEngine objects in %s (expected: exactly one, in start)' % built)
+    h = methods.get('_setup_connection_handler')
+    ok = False
+    for n in ast.walk(h) if h else []:
+        if isinstance(n, ast.Call) and isinstance(n.func, ast.Attribute) and n.func.attr == 'KmipSession' and n.args:
+            a = n.args[0]
+            ok = isinstance(a, ast.Attribute) and a.attr == '_engine' and isinstance(a.value, ast.Name) and a.value.id == 'self'
+    if not ok:
+        problems.append('_setup_connection_handler does not pass self._engine to KmipSession')
+    return problems
+
+
+def server_path_probe(ctx):
+    """Several clients at the same time THROUGH THE SERVER: connections accepted by KmipServer._setup_connection_handler, one
+    KmipSession thread each, requests and responses as TTLV bytes.  (a) every session must work on the very engine object
+    the server built; (b) forced schedules: bob's request is held right before its first write (SQLAlchemy
+    before_cursor_execute hook on the database engine bob's session uses) while alice's request on the same object is sent;
+    the two answers and the final state must be those of serving the two requests one at a time in one of the two orders."""
+    from sqlalchemy import event as sa_event
+    schedules = [('activate-activate', lambda u: [kdrv.activate(u)], lambda u: [kdrv.activate(u)]),
+                 ('destroy-activate', lambda u: [kdrv.destroy(u)], lambda u: [kdrv.activate(u)]),
+                 ('activate-destroy', lambda u: [kdrv.activate(u)], lambda u: [kdrv.destroy(u)])]
+    for label, bob_items, alice_items in schedules:
+        rig = ServerRig(ctx, 'server_' + label)
+        logging_quiet()
+        later = []          # the identity tie is reported after the behaviour, so that a concrete schedule heads the replay
+        try:
+            ca, sa = rig.connect('alice')
+            cb, sb = rig.connect('bob')
+            ctx.count('server-path.sessions', 2)
+            for who, sess in (('alice', sa), ('bob', sb)):
+                if sess is None or sess._engine is not rig.srv._engine:
+                    later.append(({'class': 'engine-not-shared', 'where': '_setup_connection_handler'},
+                                  {'session': who, 'session_engine': repr(getattr(sess, '_engine', None)), 'server_engine': repr(rig.srv._engine),
+                                   'how': 'KmipServer from a configuration file; two connections through _setup_connection_handler; '
+                                          'compare session._engine with server._engine'},
+                                  'the session serving %s does not work on the engine object the server built: every connection has '
+                                  'its own engine lock while all share one database file' % who))
+            r = rig.call('alice', [kdrv.create(names=['shared-key'], extra=[kdrv.attr(AT.OPERATION_POLICY_NAME, 'open')])])
+            uid = str(r[0][2]) if r else None
+            if not r or r[0][1] != 0:
+                ctx.disagreement('server-path', {'problem': 'prelude Create failed', 'answer': r})
+                continue
+            parked, release = threading.Event(), threading.Event()
+            bob_thread = sb.ident
+
+            def hold(conn, cursor, statement, parameters, context, executemany):
+                if threading.get_ident() == bob_thread and not parked.is_set() and statement.lstrip()[:6].upper() in ('UPDATE', 'DELETE', 'INSERT'):
+                    parked.set()
+                    release.wait(0.6)      # with one shared engine alice waits for the engine lock and bob resumes after the timeout
+            ds = sb._engine._data_store
+            sa_event.listen(ds, 'before_cursor_execute', hold)
+            try:
+                rig.send('bob', bob_items(uid))
+                parked.wait(5)
+                rig.send('alice', alice_items(uid))
+                ra = rig.receive('alice', timeout=8)
+                release.set()
+                rb = rig.receive('bob', timeout=8)
+                if ra is None:
+                    ra = rig.receive('alice', timeout=8)
+            finally:
+                sa_event.remove(ds, 'before_cursor_execute', hold)
+            st = rig.call('alice', [kdrv.get_attributes(uid, ['State'])])
+            got = (rb, ra, st)
+            # one-at-a-time references, both orders, on a plain engine
+            refs = []
+            for order in (('bob', 'alice'), ('alice', 'bob')):
+                e = kdrv.Engine(workdir=str(ctx.work / ('server_ref_' + label)), policies=open_policies())
+                try:
+                    r0 = e.request([kdrv.create(names=['shared-key'], extra=[kdrv.attr(AT.OPERATION_POLICY_NAME, 'open')])], user='alice')
+                    u = kdrv.first_uid(r0['items'][0])
+                    ans = {}
+                    for who in order:
+                        rr = e.process(e.build(bob_items(u) if who == 'bob' else alice_items(u)), who, None)
+                        ans[who] = project_response(rr['raw'], None)
+                    s2 = e.process(e.build([kdrv.get_attributes(u, ['State'])]), 'alice', None)
+                    refs.append((ans['bob'], ans['alice'], project_response(s2['raw'], None)))
+                finally:
+                    e.close()
+            ctx.count('server-path.forced-schedules')
+            ctx.case_seen(('server-path', label, repr(got)), nontrivial=True)
+            norm = lambda x: [tuple(i) for i in x] if x is not None else None
+            if (norm(got[0]), norm(got[1]), norm(got[2])) not in [(norm(a), norm(b), norm(c)) for a, b, c in refs]:
+                ctx.violation({'class': 'not-one-at-a-time', 'how': 'server-path', 'schedule': label},
+                              {'schedule': ['KmipServer built from a configuration file; alice and bob connect through _setup_connection_handler',
+                                            'alice: Create (operation policy with ALLOW_ALL) -> %s' % uid,
+                                            'bob sends %s %s; his session thread is held right before its first UPDATE/DELETE' % (label.split('-')[0], uid),
+                                            'alice sends %s %s' % (label.split('-')[1], uid), 'bob continues'],
+                               'answers (operation, code, identifier, extra)': {'bob': got[0], 'alice': got[1], 'state afterwards': got[2]},
+                               'one_at_a_time': [{'order': o, 'bob': a, 'alice': b, 'state afterwards': c}
+                                                 for o, (a, b, c) in zip(('bob first', 'alice first'), refs)],
+                               'how_to_replay': 'harness/c10.py server_path_probe'},
+                              'through the server, bob\'s %s and alice\'s %s of the same object were answered %s / %s (state afterwards %s): '
+                              'no one-at-a-time order gives these answers' % (label.split('-')[0], label.split('-')[1], got[0], got[1], got[2]))
+        finally:
+            rig.close()
+            for a in later:
+                ctx.violation(*a)
+    for p in server_static(ctx):
+        ctx.violation({'class': 'engine-not-shared', 'where': 'static'}, {'finding': p, 'file': 'kmip/services/server/server.py'}, p)
+
+
 # ---------------------------------------------------------------------------------- check
 def run(ctx):
     quick = ctx.tier == 'quick'
@@ -852,6 +1095,7 @@ def run(ctx):
     ctx.prove('props/C10.v')
     run_probes(ctx)          # first: a hit here is a concrete schedule (goes into the replay file)
     session_layer_probe(ctx)
+    server_path_probe(ctx)
     n_runs = 60 if quick else 400
     cases, meta = [], []
     # scheduled runs of read-only requests whose answer depends on the session's version, from sessions of different
